@@ -14,6 +14,7 @@ CONSTANTS
   CraftToks = {"TF", "TQ"}
   MaxPresent = 2
   Calls = {"exchange", "client", "craft", "deliver"}
+  PumpPay = FALSE
   HealRounds = 0
   HealDt = 250
   Bound = 0
